@@ -27,10 +27,17 @@ def setup(ctx):
     common.install_invariants()
 
 
-def plan(tier, seed):
+def _plan(tier, seed):
     if tier == "quick":
         return [{"n_cases": 260, "mode": "A", "hashseed": i % 3} for i in range(8)]
     return [{"n_cases": 4000, "mode": "A", "hashseed": i % 4} for i in range(14)]
+
+def plan(tier, seed):
+    """+ one shard running the repository's own tests under the monitors (vf/pytest_plugin.py)"""
+    shards = _plan(tier, seed)
+    if tier == "thorough":
+        shards.append({"kind": "repotests", "n_cases": 0})
+    return shards
 
 
 def gen_case(rng, ctx):
